@@ -37,7 +37,9 @@ func (t *Dense) T(axes ...int) (err error) {
 		}
 
 		// cool beans. No funny reversals. We'd have to actually do transpose then
-		t.Transpose()
+		if err = t.Transpose(); err != nil {
+			return err
+		}
 	}
 
 	// swap out the old and the new
